@@ -3,7 +3,7 @@ From Coq Require Import List Bool Lia Arith ZArith.
 From Emmet Require Import lib.Base model.MarkupTokenizer model.MarkupParser model.MarkupConvert model.MarkupResolve
      model.OutStream model.FormatHtml model.FormatIndent model.MarkupExpand gen.GenMarkupSnippets
      proofs.MarkupTokenizerProofs proofs.SafeTokenizer proofs.SafeParser proofs.SafeConvert proofs.SafeResolve
-     proofs.BemProofs.
+     model.MarkupLorem proofs.BemProofs proofs.LoremProofs proofs.LoremFill proofs.SafeFormat.
 Import ListNotations.
 
 (* tokenize + parse: the only failures are the two parse errors, position inside the input *)
@@ -53,22 +53,37 @@ Proof.
   - simpl. split; [left; reflexivity|lia].
 Qed.
 
+(* the lorem oracle: the stream of draws of the configuration ran out while the lorem pass was writing the paragraphs
+   of the resolved forest of this abbreviation *)
+Definition draws_exhausted (cfg : mconfig) (s : str) : Prop :=
+  exists tree resolved,
+    parse_abbr (mc_jsx cfg) (mkCenv (mc_text cfg) (mc_variables cfg) (mc_href cfg)) (mc_max_repeat cfg) s = Ok tree /\
+    walk_resolve (S (length (mc_snippets cfg))) cfg [] tree = Ok resolved /\
+    lorem_fill_list resolved (mc_draws cfg) = LExhausted.
+(* the statement of C07 with the oracle: as [safe_outcome], and OutOfFuel only for an exhausted stream *)
+Definition safe_or_exhausted {A} (cfg : mconfig) (s : str) (r : res A) : Prop :=
+  match r with
+  | OutOfFuel => draws_exhausted cfg s
+  | _ => safe_outcome (length s) r
+  end.
+
 Theorem markup_parse_safe : forall cfg s, wf_cfg cfg -> abbr_wf (mc_jsx cfg) s ->
-  safe_outcome (length s) (markup_parse cfg s).
+  safe_or_exhausted cfg s (markup_parse cfg s).
 Proof.
   intros cfg s Hcfg Hwf. unfold markup_parse.
   pose proof (parse_abbr_safe (mc_jsx cfg) (mkCenv (mc_text cfg) (mc_variables cfg) (mc_href cfg)) (mc_max_repeat cfg) s Hwf) as H.
-  destruct (parse_abbr _ _ _ s) as [tree|k p| |]; try exact H.
+  destruct (parse_abbr _ _ _ s) as [tree|k p| |] eqn:EP; try exact H; [|destruct H].
   cbn [bind]. destruct (resolve_safe cfg tree Hcfg) as [r Er]. rewrite Er. cbn [bind].
-  (* the transform pass, BEM addon included, never fails: BemProofs.transform_list_ok *)
-  destruct (transform_list_ok cfg r) as [t Et]. rewrite Et. exact I.
+  (* the transform pass: lorem draws (LoremFill), then the rest, BEM addon included (BemProofs) *)
+  pose proof (transform_total cfg r) as Ht.
+  destruct (transform_list cfg r) as [t|k p| |]; [exact I|destruct Ht|destruct Ht|].
+  unfold safe_or_exhausted, draws_exhausted. exists tree, r. auto.
 Qed.
 
-(* expand(): the transform pass is total (BemProofs.transform_list_ok, inside markup_parse_safe); the formatter
-   (html / haml / pug / slim, comments, JSX attribute renaming, context) is a
+(* expand(): the formatter (html / haml / pug / slim, comments, JSX attribute renaming, context) is a
    total function by construction (`stringify_markup` returns a plain state, no `res`) *)
 Theorem expand_safe_under_wf : forall x s, wf_cfg (xc_m x) -> abbr_wf (mc_jsx (xc_m x)) s ->
-  safe_outcome (length s) (expand_markup_str x s).
+  safe_or_exhausted (xc_m x) s (expand_markup_str x s).
 Proof.
   intros x s Hcfg Hwf. unfold expand_markup_str, expand_markup.
   pose proof (markup_parse_safe (xc_m x) s Hcfg Hwf) as H.
